@@ -14,6 +14,10 @@
     errUndeclaredCursor (`lookup … = none`); IsInRange / Count turn errCursorClosed into the "closed" error.
   * fxScope* — DECLARE goes to Blocks[0]; every other statement walks the blocks innermost-first and stops at the
     first block that does not answer errUndeclaredCursor (`stepS`, `lookupS`).
+  * fxFetchCursor — `stepFetchInto` / `whileInto` / `Op.fetchBad`: no position = NEXT (number −1); the number is an
+    expression, evaluated, converted with value.ToInteger, NULL → "invalid fetch position" BEFORE the cursor is touched;
+    then the cursor is moved through the scope chain; nothing fetched → false (the variables keep their values);
+    only then the number of variables is compared with the row ("fetch length" error, pointer already moved).
   * fxNewCursor — a declared cursor starts with view == nil (closed), not pseudo.
 -/
 namespace Csvq.Ref
@@ -101,5 +105,9 @@ def fxScopeCursorIsInRange : List String :=
 /-- (*ReferenceScope).CursorCount -/
 def fxScopeCursorCount : List String :=
   ["var count int", "var err error", "range[i := rs.Blocks]{", "count, err = rs.Blocks[i].Cursors.Count(name)", "if[err == nil]{", "return count, nil", "}", "if[err != errUndeclaredCursor]{", "return 0, err", "}", "}", "return 0, NewUndeclaredCursorError(name)"]
+
+/-- func FetchCursor (query.go): position / number, the cursor is moved, THEN the number of variables is compared -/
+def fxFetchCursor : List String :=
+  ["position := parser.NEXT", "number := -1", "if[!fetchPosition.Position.IsEmpty()]{", "position = fetchPosition.Position.Token", "if[fetchPosition.Number != nil]{", "p, err := Evaluate(ctx, scope, fetchPosition.Number)", "if[err != nil]{", "return false, err", "}", "i := value.ToInteger(p)", "if[value.IsNull(i)]{", "return false, NewInvalidFetchPositionError(fetchPosition)", "}", "number = int(i.(*value.Integer).Raw())", "value.Discard(i)", "}", "}", "primaries, err := scope.FetchCursor(name, position, number)", "if[err != nil]{", "return false, err", "}", "if[primaries == nil]{", "return false, nil", "}", "if[len(vars) != len(primaries)]{", "return false, NewCursorFetchLengthError(name, len(primaries))", "}", "range[i, v := vars]{", "_, err := scope.SubstituteVariableDirectly(v, primaries[i])", "if[err != nil]{", "return false, err", "}", "}", "return true, nil"]
 
 end Csvq.Ref
